@@ -19,6 +19,23 @@ type OpC11 struct {
 	Segs    []string    `json:"segs"`
 	NewName string      `json:"new_name,omitempty"`
 	Val     interface{} `json:"val,omitempty"`
+	Typed   int         `json:"typed,omitempty"` // > 0: the value is a container built in Go with members JSON does not round-trip (see typedC11Val); set at check time
+}
+
+// typedC11Val: values a program stores that did not come from a decoder - Go integers (also above 2^53), a string that is
+// not valid UTF-8, a member of type Map, a []string. SetValueForPath stores the value it is given.
+func typedC11Val(k int) interface{} {
+	switch k % 5 {
+	case 1:
+		return map[string]interface{}{"n": 7, "s": "x"}
+	case 2:
+		return map[string]interface{}{"big": int64(9007199254740993), "u": uint64(18446744073709551615)}
+	case 3:
+		return []interface{}{int32(1), "x", float32(0.1)}
+	case 4:
+		return map[string]interface{}{"raw": "a\xffb", "l": []string{"p", "q"}}
+	}
+	return map[string]interface{}{"inner": map[string]interface{}{"i": 3, "f": 2.5}}
 }
 
 type CaseC11 struct {
@@ -224,6 +241,10 @@ func genC11(t *rapid.T) CaseC11 {
 			default:
 				op.Val = fmt.Sprintf("V%d", i)
 			}
+			if rapid.IntRange(0, 5).Draw(t, "typedval") == 3 {
+				op.Typed = rapid.IntRange(1, 5).Draw(t, "typedkind")
+				op.Val = typedC11Val(op.Typed)
+			}
 		case "rename":
 			op.NewName = rapid.SampledFrom(append([]string{"nn", "mm"}, c11Keys...)).Draw(t, "nn")
 			if op.NewName == "" {
@@ -369,6 +390,12 @@ func checkC11(c CaseC11, info *Info) *Failure {
 	defer resetOptions()
 	applyUnrelatedOptions(c.Unrelated)
 	info.ClassIf(c.Unrelated != 0, "unrelated options switched on")
+	for i := range c.Ops {
+		if c.Ops[i].Typed > 0 {
+			c.Ops[i].Val = typedC11Val(c.Ops[i].Typed) // (a replayed case has lost the Go types)
+			info.Class("a stored value with Go-typed members (int, int64 above 2^53, invalid UTF-8, []string)")
+		}
+	}
 	subject := copyMap(c.Map)
 	model := copyMap(c.Map)
 	mv := mxj.Map(subject)
